@@ -62,3 +62,19 @@ Theorem C08_convnd_attrs_fixed : forall e stride padding dilation has_bias st pd
   aten_convnd_attrs_fixed e stride padding dilation has_bias = Some (st, (pd ++ pd)%list, dl, []).
 Proof. exact convnd_attrs_fixed_correct. Qed.
 Print Assumptions C08_convnd_attrs_fixed.
+
+(* the flagged variants evaluated by the correspondence checker: false = the code as read, true = proposed_fixes/ready/C08_11..13 *)
+Theorem C08_convolution_attrs_v_fixed : forall e stride padding dilation transposed output_padding st pd dl op,
+  0 <= e -> torch_conv_params e stride padding dilation output_padding = Some (st, pd, dl, op) ->
+  aten_convolution_attrs_v true e stride padding dilation transposed output_padding = Some (st, (pd ++ pd)%list, dl, op).
+Proof. exact convolution_attrs_v_fixed. Qed.
+Print Assumptions C08_convolution_attrs_v_fixed.
+Theorem C08_convnd_attrs_v_fixed : forall e stride padding dilation has_bias st pd dl op,
+  0 <= e -> torch_conv_params e stride padding dilation [0] = Some (st, pd, dl, op) ->
+  aten_convnd_attrs_v true true e stride padding dilation has_bias = Some (st, (pd ++ pd)%list, dl, []).
+Proof. exact convnd_attrs_v_fixed. Qed.
+Print Assumptions C08_convnd_attrs_v_fixed.
+Theorem C08_convnd_attrs_v_as_read : forall e stride padding dilation has_bias,
+  aten_convnd_attrs_v false false e stride padding dilation has_bias = aten_convnd_attrs e stride padding dilation has_bias.
+Proof. exact convnd_attrs_v_as_read. Qed.
+Print Assumptions C08_convnd_attrs_v_as_read.
